@@ -184,6 +184,15 @@ pub(super) fn truncate_utf8(bytes: &[u8], max_bytes: usize) -> (String, bool, us
     )
 }
 
+/// Bytes of `page` to decode when more content follows it: an incomplete trailing UTF-8 sequence is
+/// held back (never the whole page, so paging always advances).
+pub(super) fn utf8_page_len(page: &[u8]) -> usize {
+    match std::str::from_utf8(page) {
+        Err(err) if err.error_len().is_none() && err.valid_up_to() > 0 => err.valid_up_to(),
+        _ => page.len(),
+    }
+}
+
 #[cfg(windows)]
 pub(super) fn default_shell_program() -> (String, Vec<String>) {
     if let Some(program) = find_program("pwsh") {
